@@ -59,6 +59,12 @@ class World:
         self.ckey_carol = open(os.path.join(self.dir, "tocarol.ktl"), "rb").read()
         self.cpass = open(os.path.join(self.dir, "pw.ktl"), "rb").read()
 
+    def other_pub_enc(self, n):
+        """A further public key (a keyring may not hold the same key twice)."""
+        import hashlib
+        pk = hashlib.sha256(b"case-decoy-%d-%d" % (self.seed, n)).digest()
+        return base64.b64encode(pk + hashlib.sha256(pk).digest()[:4]).decode()
+
     def fillers(self, n=400):
         """n further public-key entries (random keys, distinct names): 'forall keyrings' includes large ones, and the
         sender look-up has to pick the one entry whose key EQUALS the authenticated key among many others."""
@@ -81,12 +87,19 @@ class World:
         alice = ("alice", k["alice"], alice_private)
         others = [("bob", k["bob"], bob_private), ("carol", k["carol"], True)]
         filler = self.fillers() if fill else ""
-        if sender_pos == "first":
-            text = cli.keyring_text([alice] + others) + filler
+        # names that differ from the real ones only in letter case are other names, bound to other keys
+        decoys = "[Key]\nName = BOB\nPublicKey = %s\n\n[Key]\nName = Alice\nPublicKey = %s\n\n" % (self.other_pub_enc(1), self.other_pub_enc(2))
+        if sender_pos == "badsum":
+            # alice's 32 key bytes with a checksum that does not match: not a usable key, names nobody
+            enc = k["alice"]["pub_enc"]
+            bad = enc[:-1] + ("A" if enc[-1] != "A" else "B")
+            text = decoys + "[Key]\nName = alice\nPublicKey = %s\n\n" % bad + cli.keyring_text(others) + filler
+        elif sender_pos == "first":
+            text = decoys + cli.keyring_text([alice] + others) + filler
         elif sender_pos == "last":
-            text = cli.keyring_text(others) + filler + cli.keyring_text([alice])
+            text = decoys + cli.keyring_text(others) + filler + cli.keyring_text([alice])
         else:
-            text = cli.keyring_text(others) + filler
+            text = decoys + cli.keyring_text(others) + filler
         if with_lo:
             text += "[Key]\nName = lo\nPublicKey = %s\n" % self.lo_enc
         return text
@@ -229,6 +242,8 @@ def run_config(w, c, idx, psize=None):
               "key_generate": "gen-pw"}[cmd]
         if cause == "wrong_password":
             pw = "not-the-password"
+        # a variable that only `key change-pass` reads; left over in the environment it must not matter to any other command
+        env["KESTREL_NEW_PASSWORD"] = "stale new password"
         raw_env = None
         if cause == "non_utf8_password":
             raw_env = {b"KESTREL_PASSWORD": b"p\xff\xfew"}
@@ -286,9 +301,9 @@ def run_config(w, c, idx, psize=None):
             m = re.search(r"Success\. File from: (.*)", errt)
             u = re.search(r"Unknown key: (\S+)", errt)
             if m:
-                named = "name" if m.group(1).strip() == "alice" and c["sender"] != "absent" else "wrong_name"
+                named = "name" if m.group(1).strip() == "alice" and c["sender"] not in ("absent", "badsum") else "wrong_name"
             elif u:
-                named = "unknown" if u.group(1) == w.keys["alice"]["pub_enc"] and c["sender"] == "absent" else "wrong_unknown"
+                named = "unknown" if u.group(1) == w.keys["alice"]["pub_enc"] and c["sender"] in ("absent", "badsum") else "wrong_unknown"
             else:
                 named = "nothing"
         return {"ev": "cli", "id": "cfg%d" % idx, "cfg": c, "psize": psize, "args": [a if not a.startswith(sb.dir) else os.path.basename(a) for a in args],
@@ -324,7 +339,7 @@ def tool_configs(cmds, causes):
     out = []
     for cmd in cmds:
         for cause in causes:
-            if cause == "input_read_error" and cmd == "key_generate":
+            if cause in ("input_read_error", "wrong_password") and cmd == "key_generate":
                 continue
             if cause in ("corrupt_later_chunk", "truncated_later_chunk", "appended_data", "corrupt_first_chunk") and cmd not in ("decrypt", "pass_decrypt"):
                 continue
@@ -499,7 +514,10 @@ def exec_gen_history(w, hid, initial, n):
             assert len(name.encode()) <= 128
             pw = GEN_PASSWORDS[(k + 3 * int(hid[1:])) % len(GEN_PASSWORDS)]
             before = sb.read("keyring.txt")
-            r = cli.kestrel(["key", "generate", "-o", f, "--env-pass"], env={"KESTREL_PASSWORD": pw}, stdin=(name + "\n").encode())
+            genv = {"KESTREL_PASSWORD": pw}
+            if (k + int(hid[1:])) % 2:
+                genv["KESTREL_NEW_PASSWORD"] = "stale new password"      # only change-pass reads it
+            r = cli.kestrel(["key", "generate", "-o", f, "--env-pass"], env=genv, stdin=(name + "\n").encode())
             after = sb.read("keyring.txt") or b""
             names.append(name)
             pws.append(pw)
@@ -631,7 +649,10 @@ def exec_life_history(w, hid, first, ops):
     pwmap = LIFE_PW_B if int(hid[1:]) % 2 else LIFE_PW
     with cli.Sandbox(w.pid, "life") as sb:
         pw = pwmap[first]
-        r = cli.kestrel(["key", "generate", "--env-pass"], env={"KESTREL_PASSWORD": pw}, stdin=b"lifekey\n")
+        genv = {"KESTREL_PASSWORD": pw}
+        if int(hid[1:]) % 3 == 1:
+            genv["KESTREL_NEW_PASSWORD"] = "stale new password"          # only change-pass reads it
+        r = cli.kestrel(["key", "generate", "--env-pass"], env=genv, stdin=b"lifekey\n")
         m = re.search(rb"PublicKey = (\S+)\nPrivateKey = (\S+)", r.out)
         if r.rc != 0 or not m:
             return [{"ev": "life", "id": hid + ".gen", "op": "generate", "exit": r.rc if r.rc != 0 else 1, "identity_kept": False,
@@ -892,6 +913,50 @@ def c09(pid, tier, seed, selftest=False):
                     "stderr": r.err_text[-200:]}
         with cf.ThreadPoolExecutor(max_workers=NCPU) as ex:
             aevs = list(ex.map(one, list(enumerate(vectors))))
+        # the tool offered very large input FILES while it can only get 1 GiB of address space: rejecting (bad magic, bad
+        # header, data after the final chunk) must not need memory that grows with the file
+        w9 = World(pid, tpl, seed)
+        big = {"zeros": b"", "keyfile+zeros": w9.ckey, "passfile+zeros": w9.cpass}
+        for nm, head in big.items():
+            pth = sb.path("big-" + nm.split("+")[0])
+            with open(pth, "wb") as f:
+                f.write(head)
+                f.truncate(3 << 30)          # sparse: 3 GiB
+        sb.write("kr9.txt", w9.keyring())
+        bigv = [(["decrypt", sb.path("big-zeros"), "-t", "bob", "-o", sb.path("o1"), "-k", sb.path("kr9.txt"), "--env-pass"], "bob-pw"),
+                (["password", "decrypt", sb.path("big-zeros"), "-o", sb.path("o2"), "--env-pass"], "file-pw"),
+                (["decrypt", sb.path("big-keyfile"), "-t", "bob", "-o", sb.path("o3"), "-k", sb.path("kr9.txt"), "--env-pass"], "bob-pw"),
+                (["password", "decrypt", sb.path("big-passfile"), "-o", sb.path("o4"), "--env-pass"], "file-pw")]
+        # the same four without the limit on 600 MiB files: here the peak resident set is what is judged
+        for nm, head in big.items():
+            pth = sb.path("mid-" + nm.split("+")[0])
+            with open(pth, "wb") as f:
+                f.write(head)
+                f.truncate(600 << 20)
+        bigv += [([x.replace("big-", "mid-") for x in v], pw) for (v, pw) in list(bigv)]
+        for i, (v, pw) in enumerate(bigv):
+            limited = i < 4
+
+            def lim():
+                import resource
+                if limited:
+                    resource.setrlimit(resource.RLIMIT_AS, (1 << 30, 1 << 30))
+            timed = os.path.exists("/usr/bin/time")
+            try:
+                p = subprocess.run((["/usr/bin/time", "-v"] if timed else []) + [cli.KESTREL] + v, env={"PATH": "/usr/bin:/bin", "HOME": "/nonexistent", "KESTREL_PASSWORD": pw},
+                                   stdin=subprocess.DEVNULL, stdout=subprocess.PIPE, stderr=subprocess.PIPE, timeout=180, cwd=sb.dir, preexec_fn=lim)
+                err = p.stderr.decode("utf-8", "replace")
+                m = re.search(r"Maximum resident set size \(kbytes\): (\d+)", err)
+                rcm = re.search(r"Exit status: (\d+)", err)
+                sig = re.search(r"Command terminated by signal (\d+)", err)
+                rc = -int(sig.group(1)) if sig else (int(rcm.group(1)) if rcm else p.returncode)
+                own = err.split("\tCommand being timed")[0] if timed else err
+                ev = {"exit": rc, "errline": "Error:" in own, "timed_out": False, "stderr": own[-200:], "rss_kb": int(m.group(1)) if m else -1}
+            except subprocess.TimeoutExpired:
+                ev = {"exit": -999, "errline": False, "timed_out": True, "stderr": "", "rss_kb": -1}
+            ev.update({"ev": "argv", "id": "big%d" % i, "argv": [os.path.basename(x) if x.startswith(sb.dir) else x for x in v]})
+            aevs.append(ev)
+            vectors.append(ev["argv"])
     for v in vectors:
         rep.case("argv:" + json.dumps(v), len(v) > 0)
     rep.sample(aevs[len(aevs) // 3])
@@ -949,8 +1014,17 @@ def run_tty_scenario(w, idx, sc, channel="tty"):
         else:
             args = ["key", "change-pass", keys["ttyalice"]["locked"]]
         # lines typed; then Ctrl-C if the contract says the script ends in an interrupt
-        rc, transcript, answered = ptyrun.run_tty(args, lines, timeout=90, interrupt=(exp["res"] == "interrupted"),
-                                                  controlling=(channel == "tty"))
+        if channel == "redirected" and cmd != "change_pass":
+            # a terminal on stdin only, stdout redirected to the output file (no -o), stderr to a log: the prompts belong on stderr
+            i_o = args.index("-o")
+            del args[i_o:i_o + 2]
+            os.unlink(out_path)
+            rc, transcript, answered = ptyrun.run_tty(args, lines, timeout=90, interrupt=False, controlling=False,
+                                                      stdout_path=out_path, stderr_path=sb.path("err.log"))
+            transcript = sb.read("err.log") or b""
+        else:
+            rc, transcript, answered = ptyrun.run_tty(args, lines, timeout=90, interrupt=(exp["res"] == "interrupted"),
+                                                      controlling=(channel == "tty"))
         got = sb.read("out.bin")
         pw_ok = True
         if got == prior:
@@ -982,12 +1056,12 @@ def run_tty_scenario(w, idx, sc, channel="tty"):
                     pw_ok = bool(u.get("ok")) and u.get("sk_hex") == keys["ttyalice"]["sk_hex"]
                     out = "full" if pw_ok else "other"
         text = transcript.decode("utf-8", "replace")
-        return {"ev": "tty", "id": "tty%d%s" % (idx, "" if channel == "tty" else "s"), "channel": channel, "cmd": cmd, "script": script, "exp": exp, "rc": rc, "answered": answered,
+        return {"ev": "tty", "id": "tty%d%s" % (idx, {"tty": "", "stdin": "s", "redirected": "r"}[channel]), "channel": channel, "cmd": cmd, "script": script, "exp": exp, "rc": rc, "answered": answered,
                 "timed_out": rc == -999, "out": out, "pw_ok": pw_ok, "errline": "Error:" in text,
                 "transcript_tail": text[-200:]}
 
 
-def tty_extension(rep, pid, tpl, seed, thorough, prefixes, only_failures=False):
+def tty_extension(rep, pid, tpl, seed, thorough, prefixes, only_failures=False, channels=None):
     res = run_tlc(pid, "prompt-mc", "Prompt", "SPECIFICATION Spec\nCONSTANT MaxLines = %d\nINVARIANT MatchesContract\nINVARIANT Emit\nCHECK_DEADLOCK FALSE\n"
                   % (5 if thorough else 4), workers=1, timeout=300)
     rep.add_model("prompt-mc", res, "interactive password paths (ask / confirm loop / unlock loop) against the declarative outcome; emits typed scripts")
@@ -1012,6 +1086,10 @@ def tty_extension(rep, pid, tpl, seed, thorough, prefixes, only_failures=False):
     # every script on the controlling terminal; those that do not end in Ctrl-C (without a controlling terminal there
     # is no interrupt character) also with a terminal on stdin only: the prompt_password_stdin fall-back
     jobs = [(i, s, "tty") for i, s in enumerate(scs)] + [(i, s, "stdin") for i, s in enumerate(scs) if s["exp"]["res"] != "interrupted"]
+    # ... and, for scripts that succeed, with stdout redirected to the output file and stderr to a log (nothing but stdin is a terminal)
+    jobs += [(i, s, "redirected") for i, s in enumerate(scs) if s["exp"]["res"] == "ok" and s["cmd"] != "change_pass"]
+    if channels is not None:
+        jobs = [j for j in jobs if j[2] in channels]
     with cf.ThreadPoolExecutor(max_workers=8) as ex:
         evs = list(ex.map(lambda j: run_tty_scenario(w, j[0], j[1], j[2]), jobs))
     for (i, s, ch) in jobs:
